@@ -151,6 +151,7 @@ def cmd_campaign(tier: str, verif_seed: int, workers: int) -> int:
     known_hits: list = []
     unknown_bad: dict | None = None
     worker_crashes = 0
+    deferred_problem: str | None = None
     try:
         # ---- 1. determinism mini-proof (DESIGN.md 3.4) ------------------------------------
         n = cfg['det_seeds']
@@ -180,7 +181,10 @@ def cmd_campaign(tier: str, verif_seed: int, workers: int) -> int:
             if not (x[2] == y[2] == z[2]) or str(x[2]).startswith('REPLAY-MISMATCH'):
                 determinism['mismatches'].append({'run': x[:2], 'digests': [x[2], y[2], z[2]]})
         if determinism['mismatches']:
-            harness_problem = f'NONDETERMINISM: {determinism["mismatches"][:3]}'
+            # Not fatal yet: an implementation that keeps configuration in process-global state makes
+            # runs depend on what ran before them in the same process.  The campaign goes on; if it finds
+            # a violation that is the verdict, otherwise the nondeterminism is reported (exit 2, never 0).
+            deferred_problem = f'NONDETERMINISM: {determinism["mismatches"][:3]}'
         out(f'determinism: {len(items)} runs x 3 executions, compared={determinism["compared"]} mismatches={len(determinism["mismatches"])} not-ok={len(not_ok)} ({time.time() - t_start:.1f}s)')
 
         # ---- 2. sub-campaigns -------------------------------------------------------------
@@ -341,6 +345,10 @@ def cmd_campaign(tier: str, verif_seed: int, workers: int) -> int:
             printed.add(line)
             out(line)
 
+    if harness_problem is None and deferred_problem is not None and rc != 1:
+        harness_problem = deferred_problem
+    elif deferred_problem is not None:
+        out('note: ' + deferred_problem)
     if harness_problem is not None:
         out(harness_problem)
         rc = 2
